@@ -44,7 +44,7 @@ let sx_of_list f l = L (List.map f l)
 let sx_of_str s = sx_of_list sx_of_n s
 let sx_of_opt f = function None -> A "none" | Some x -> L [A "some"; f x]
 
-let exn_name (e : exn) : string =
+let exn_name (e : exn) =
   match e with
   | ExpressionError -> "ExpressionError" | TokenError -> "TokenError" | ValueError -> "ValueError"
   | IndexError -> "IndexError" | KeyError -> "KeyError" | TypeError -> "TypeError"
